@@ -333,6 +333,11 @@ class SBT(Index):
         self.add_node(leaf)
 
     def add_node(self, node):
+        # a tree loaded from a sparse save has internal nodes that were not
+        # loaded; add_node / new_node_pos assume every internal node is there
+        for missing_pos in sorted(self._missing_nodes):
+            self._rebuild_node(missing_pos)
+
         pos = self.new_node_pos(node)
 
         if pos == 0:  # empty tree; initialize w/node.
